@@ -34,7 +34,9 @@ fn clk(rng: &mut StdRng) -> String {
 
 pub fn random_game(rng: &mut StdRng) -> Game {
     let policy = gen::POLICIES[rng.gen_range(0..3)];
-    let len = if rng.gen_bool(0.1) { rng.gen_range(0..4) } else { rng.gen_range(4..160) };
+    // mostly ordinary lengths, some tiny games, and a few marathon games (move numbers beyond 255 / 300)
+    let len = match rng.gen_range(0..100) { 0..=9 => rng.gen_range(0..4), 10..=12 => rng.gen_range(500..720), _ => rng.gen_range(4..160) };
+    let policy = if len >= 500 { gen::Policy::Shuffle } else { policy };
     let start = Pos::startpos();
     let (ps, ms) = gen::walk(rng, &start, policy, len);
     let mut moves = Vec::new();
@@ -211,6 +213,7 @@ pub fn check_database(rng: &mut StdRng, rep: &mut Report, n_configs: usize) {
         }
     }
     rep.max("max_games_per_database", games.len() as u64);
+    for g in &games { rep.max("max_moves_in_a_game", g.moves.len() as u64); if g.moves.len() >= 512 { rep.count("games_with_256_or_more_full_moves"); } }
     rep.add("games", games.len() as u64);
     rep.add("castling_moves", castles as u64);
     if rep.samples.len() < 3 && games.len() >= 2 && len < 1500 {
